@@ -13,6 +13,10 @@ CHECKS = {
          "deterministic simulation: invariant monitor at the backend seam over seeded configurations"),
  "C03": ("exploration", "The response-writer event history of every simulated RPC passes a strict validator for the client's own protocol with an exactly-one-terminal count, over well-formed and detectably misbehaving backends.",
          "deterministic simulation: invariant monitor at the client seam over seeded backend behaviours"),
+ "C04": ("exploration", "Scripted backends fail in their own protocol with sampled codes, escaping-heavy messages, details and positions, or with bare HTTP statuses and raw grpc-status texts; the client's parsed outcome is compared with a reference error model built from the published code tables.",
+         "deterministic simulation: reference error model over seeded error scripts"),
+ "C05": ("exploration", "Sampled header/trailer multimaps in both directions and both trailer declaration styles; relocation model checked at the backend seam and at the client seam (position per client protocol, no status-key leaks).",
+         "deterministic simulation: metadata relocation model over seeded header sets"),
  "C08": ("exploration", "I/O segmentation is the schedule: every scenario is run atomically and under drawn segmentations of deliveries, handler read sizes, handler writes/flushes and scheduling policies; metamorphic equality of handler-visible request bytes and canonical client outcome.",
          "deterministic simulation: atomic-vs-segmented differential under seeded I/O schedules"),
 }
